@@ -66,10 +66,13 @@ RTOL = 1e-10
 
 # ---------------------------------------------------------------- probe model and its closed form
 
-def probe(detector, a=1.0, b=0.0, c=0.0):
+def probe(detector, a=1.0, b=0.0, c=0.0, noise=0.0):
     CALLS[0] += 1
     step = int(detector.pipeline_count)
     pix = sim_pixel(float(a), float(b), step, float(c))
+    if noise:
+        # a stochastic model WITHOUT a seed of its own: reproducible only through the pipeline seed
+        pix = pix + float(noise) * np.random.normal(0.0, 1.0, size=pix.shape)
     detector.photon.array = np.abs(pix) + 0.5
     detector.pixel.array = pix
     detector.signal.array = 2.0 * pix + 1.0
@@ -230,6 +233,12 @@ def enumerate_cases(tier, seed):
     for dims in (2, 3):         # result and target regions of equal extent at different positions
         cases.append({"fam": "run", "algo": "sade", "pygmo_seed": 2, "islands": 2, "ntargets": 2, "dims": dims,
                       "func": FUNCS[1], "sub": "shifted", "npar": 2, "r3": "6+4"})
+    # stochastic pipeline (a noise model without its own seed) under a pipeline seed, 2-3 target / input pairs: the
+    # reported fitness and the returned simulated data must be reproduced by seeded standalone exposures
+    for ntargets in (2, 3):
+        for func in FUNCS[:2]:
+            for isl in (1, 2):
+                cases.append({"fam": "stoch", "ntargets": ntargets, "func": func, "islands": isl, "pipeline_seed": 5 + ntargets})
     return cases
 
 
@@ -248,7 +257,7 @@ def expected_size(tier, seed):
     fit = len(FUNCS) * 3 * ((3 + 4) + (3 + 4) + (3 + 4))
     combos = 3 * 2 * 2 * 2 * 2
     runs = (combos * 2 if thorough else combos // 2 + combos // 4) + 1 + 2
-    return rows + cols + tsize + rsize + time + fit + runs + 8
+    return rows + cols + tsize + rsize + time + fit + runs + 8 + 8
 
 
 # ---------------------------------------------------------------- construction
@@ -279,7 +288,8 @@ def build(td, seed, *, res, tgt, tshape, times=None, func="sum_of_abs_residuals"
             wvals.append(1.5 + i + 0.25 * (seed % 3))
     bvals = [2.0 * i + 0.5 for i in range(ntargets)]
     det = mk.detector("ccd", ROWS, COLS)
-    pipe = mk.pipeline({"charge_collection": [("props.c11_calib_fitness.probe", "pm", {"a": 1.0, "b": 0.0, "c": 0.0})]})
+    pipe = mk.pipeline({"charge_collection": [("props.c11_calib_fitness.probe", "pm",
+                                               {"a": 1.0, "b": 0.0, "c": 0.0, "noise": calkw.pop("noise", 0.0)})]})
     params = [ParameterValues(key="pipeline.charge_collection.pm.arguments.a", values="_", boundaries=(0.5, 8.0))]
     if npar == 2:
         params.append(ParameterValues(key="pipeline.charge_collection.pm.arguments.c", values="_", boundaries=(0.0, 2.0)))
@@ -344,6 +354,8 @@ def run_case(case):
             return _run_optim(case, seed, td)
         if case["fam"] == "hist":
             return _run_history(case, seed, td)
+        if case["fam"] == "stoch":
+            return _run_stoch(case, seed, td)
         return _run_problem(case, seed, td)
     finally:
         shutil.rmtree(td, ignore_errors=True)
@@ -490,6 +502,84 @@ def _run_problem(case, seed, td):
 
 
 # ---------------------------------------------------------------- archipelago runs
+
+def _run_stoch(case, seed, td):
+    import pyxel
+
+    ntargets, func, isl, pseed = int(case["ntargets"]), case["func"], int(case["islands"]), int(case["pipeline_seed"]) + seed % 5
+    res = tgt = [0, ROWS, 0, COLS]
+    noise = 3.0
+    viol = []
+    label = f"stochastic pipeline, pipeline_seed={pseed}, targets={ntargets}, islands={isl}, {func}"
+
+    def bad(code, what, **extra):
+        key = {"fam": "stoch", "code": code}
+        key.update(extra)
+        viol.append((key, f"{label}: {what}"))
+
+    sig = cfgx.sig(["stoch", ntargets, func, isl])
+
+    def resim(a, b):
+        det = mk.detector("ccd", ROWS, COLS)
+        pipe = mk.pipeline({"charge_collection": [("props.c11_calib_fitness.probe", "pm",
+                                                   {"a": float(a), "b": float(b), "c": 0.0, "noise": noise})]})
+        out = pyxel.run_mode(mk.exposure([1.0], pipeline_seed=pseed), det, pipe, with_inherited_coords=True)
+        return np.asarray(out["/bucket/pixel"].values, dtype=float)
+
+    def ref_total(a, info):
+        tot, sims = 0.0, []
+        for i, T in enumerate(info["targets"]):
+            sim = resim(a, info["b"][i])
+            sims.append(sim)
+            tot += ref_fitness(func, sim, T[None], np.ones_like(T[None]))
+        return tot, sims
+
+    try:
+        cal, proc, info = build(td, seed, res=res, tgt=tgt, tshape=[ROWS, COLS], func=func, ntargets=ntargets, weights="none",
+                                rtype="pixel", algo="sade", npar=1, pygmo_seed=3 + seed % 5, pipeline_seed=pseed, noise=noise)
+        problem, _ = calib.real_problem(cal, proc)
+        n = 0
+        # (1) non-vacuity: the pipeline really is stochastic (another seed gives other data)
+        if np.array_equal(resim(2.0, 0.5), sim_pixel(2.0, 0.5, 0)[None]):
+            raise RuntimeError("harness: the noise model has no effect")
+        # (2) candidates: fitness(x) == figure of merit of the seeded re-simulations, whatever was evaluated before
+        for a in (1.0, 4.0, 2.75, 1.0):
+            got = float(problem.fitness(np.array([a]))[0])
+            want, _ = ref_total(a, info)
+            n += 1
+            if not feq(got, want, 1e-9):
+                bad("fitness-not-reproduced", f"fitness([{a}]) = {got!r} but seeded re-simulations of the {ntargets} target/input "
+                    f"pairs give {want!r}")
+                break
+        # (3) a small optimisation: champion fitness / returned simulated data versus re-simulation
+        cal, proc, info = build(td, seed, res=res, tgt=tgt, tshape=[ROWS, COLS], func=func, ntargets=ntargets, weights="none",
+                                rtype="pixel", algo="sade", npar=1, pygmo_seed=3 + seed % 5, pipeline_seed=pseed, noise=noise,
+                                num_islands=isl, num_evolutions=2, num_best_decisions=2)
+        result = pyxel.run_mode(cal, proc.detector, proc.pipeline, with_inherited_coords=True)
+        fit = np.asarray(result["/champion/fitness"].transpose("island", "evolution").values, dtype=float)
+        par = np.asarray(result["/champion/parameters"].transpose("island", "evolution", "param_id").values, dtype=float)
+        for i in range(isl):
+            a = float(par[i, -1, 0])
+            want, sims = ref_total(a, info)
+            n += 1
+            if not feq(fit[i, -1], want, 1e-9):
+                bad("champion-fitness-not-reproduced", f"island {i}: reported champion fitness {fit[i, -1]!r} for parameters "
+                    f"[{a!r}], the seeded re-simulation gives {want!r}")
+            for pidx in range(ntargets):
+                got = np.asarray(result["/simulated/pixel"].isel(island=i, processor=pidx).compute()
+                                 .transpose("readout_time", "y", "x").values, dtype=float)
+                n += 1
+                if not np.array_equal(got, sims[pidx]):
+                    bad("simulated-data-not-reproduced", f"island {i} processor {pidx}: /simulated/pixel differs from the seeded "
+                        f"re-simulation of the champion (max abs difference {float(np.max(np.abs(got - sims[pidx])))!r})")
+                    break
+    except Exception as e:  # noqa: BLE001
+        if isinstance(e, RuntimeError) and str(e).startswith("harness"):
+            raise
+        bad("run-raised", f"raised {type(e).__name__}: {str(e)[:300]}")
+        return {"viol": viol, "sig": sig, "nontrivial": False}
+    return {"viol": viol, "sig": sig, "nontrivial": True, "n": n, "outcome": {"champion": [float(x) for x in fit[:, -1]]}}
+
 
 def _exposure(a, b, nsteps, c=0.0):
     """standalone exposure with the probe model at (a, b): dict bucket -> (time, y, x) float array"""
